@@ -542,6 +542,46 @@ def c02_shadowed_parameter(p: str, q: str) -> bool:
     return ok
 
 
+SRC_TWIN = """
+namespace gt {
+template<TT = {ns::X}>
+class Cls {
+  std::vector<geo::TT> f(std::vector<geo::TT> a, std::map<int, std::vector<geo::TT<int>>> b, geo::TT c, std::vector<TT> d, geo::sub::TT e,
+                         std::vector<geo::sub::TT*> g, std::pair<geo::TT, TT> h) const;
+  static geo::TT<TT> Make(std::vector<geo::TT<TT>> many);
+  Cls(const std::vector<geo::TT>& one, TT two);
+};
+}
+"""
+
+
+def c02_qualified_twin(p: str) -> bool:
+    """
+    Capture-freedom for a namespace-QUALIFIED type whose last component is spelled like the template parameter
+    (`geo::p`, `geo::sub::p`, `geo::p<int>`): at the top level and nested in template arguments at depth 1-2 it is left
+    alone, while the bare `p` next to it is replaced.
+    pre: _pre(p, "QQ", LP, 2) and p != "UU" and p not in ("geo", "sub", "std", "vector", "map", "pair", "ns", "X", "gt", "Cls")
+    post: _
+    """
+    with concrete():
+        mod = parser.Module.parseString(SRC_TWIN)
+    cls = mod.content[0].content[0]
+    _rename(cls, {"TT": p})
+    ic = ti.InstantiatedClass(cls, [mk_typename(X)])
+    m, st, ct = ic.methods[0], ic.static_methods[0], ic.ctors[0]
+    got = [m.return_type.type1.to_cpp()] + [a.ctype.to_cpp() for a in m.args.list()] + [st.return_type.type1.to_cpp()] + \
+          [a.ctype.to_cpp() for a in st.args.list()] + [a.ctype.to_cpp() for a in ct.args.list()]
+    want = ["std::vector<geo::" + p + ">", "std::vector<geo::" + p + ">", "std::map<int, std::vector<geo::" + p + "<int>>>", "geo::" + p, "std::vector<ns::X>",
+            "geo::sub::" + p, "std::vector<std::shared_ptr<geo::sub::" + p + ">>", "std::pair<geo::" + p + ", ns::X>", "geo::" + p + "<ns::X>", "std::vector<geo::" + p + "<ns::X>>",
+            "const std::vector<geo::" + p + ">&", "ns::X"]
+    ok = got == want
+    if not ok:
+        with concrete():
+            _fail(p=p, differing=[(g, w) for g, w in zip(got, want) if g != w][:4])
+    reached()
+    return ok
+
+
 def c02_function_positions(p: str, q: str) -> bool:
     """
     Free function template: args, pair return with scoped second type, default text untouched.
